@@ -9,7 +9,7 @@ from ..loader import AnalysisError, FuncInfo
 from ..report import rule
 from ..resolve import Resolver
 from ..terms import App, Attr, Comp, Idx, Poly, Range, Slc, Sym, Tup
-from .common import bind_args, calls_to, njit_kernels, short, unparse
+from .common import bind_args, calls_to, module_constant, njit_kernels, short, unparse
 
 DENY_KW = {"fastmath", "error_model", "forceobj", "looplift", "boundscheck", "inline", "nogil_unsafe"}
 PRANGE = ("fast_ticc.numba_guard.prange", "numba.prange")
@@ -442,8 +442,8 @@ def r5(ctx):
                     n_glob += 1
                     rebound = any(isinstance(g, ast.Global) and n.id in g.names for f2 in ana.prog.functions.values() if f2.module is mi
                                   for g in Resolver.walk_own(f2.node))
-                    const = isinstance(st, ast.Assign) and (isinstance(st.value, ast.Constant) or
-                                                            ana.builder(fi)._constant_expression(st.value))   # LOG_2PI = math.log(2 * math.pi)
+                    const = module_constant(mi, n.id) or (isinstance(st, (ast.Assign, ast.AnnAssign)) and st.value is not None and
+                                                          ana.builder(fi)._constant_expression(st.value))   # LOG_2PI = math.log(2 * math.pi)
                     if rebound or mi.global_assign_count.get(n.id, 0) != 1 or not const:
                         bad.append(n)
         ctx.check(not bad, fi, f"kernel reads only modules, functions and constants from module scope ({n_glob} global reads)",
